@@ -809,6 +809,11 @@ def mon_valid(ctx):
                         "second %r" % (a[:2], b[:2]))
             if any(i[3] == "simkit-marker" for i in out["issues"]):
                 return ("valid.private", "a custom rule shows up in a default validation")
+        elif out.get("raising"):
+            if out["issues"] != out["again"]:
+                return ("valid.repeatable", "a custom validation whose rule raises for some objects "
+                        "behaves differently when run again: %r then %r" %
+                        (out["issues"][:2], out["again"][:2]))
         else:
             if not out["empty_at_start"]:
                 return ("valid.private", "a Validation created with reset=True already has rules")
